@@ -119,7 +119,10 @@ def build_aggregate(spec, parent, cparent, tag=""):
     if spec["agg"] == "gene":
         return kids, GeneInterval(kids, gene_type=GENE_TYPES[spec.get("gene_type", "protein_coding")], gene_id=f"{tag}gene",
                                   parent_or_seq_chunk_parent=parent)
-    return kids, FeatureIntervalCollection(kids, feature_collection_id=f"{tag}fc", parent_or_seq_chunk_parent=parent)
+    # (the collection DECLARES a type of its own - as every collection read from GFF3 does - which none of its features
+    # has: "a feature collection's types are the union of its features' types")
+    return kids, FeatureIntervalCollection(kids, feature_collection_id=f"{tag}fc", feature_collection_type="declared_by_collection",
+                                           parent_or_seq_chunk_parent=parent)
 
 
 def input_class(spec):
